@@ -408,6 +408,10 @@ class Interp(ExprMixin, StmtMixin):
             if st.qctx:
                 # under a quantifier we cannot fork: the caller must show the raise condition is false
                 if clause is None:
+                    if getattr(self, "_defer", None) is not None:
+                        # inside a comprehension: some element's call may raise; decided where the comprehension is consumed
+                        self._defer.append((z3.Not(L.fresh("elem_raises_" + exc.replace(".", "_"), L.B)), exc))
+                        continue
                     raise Unsupported("call that may raise under quantifier (line %d)" % line)
                 self.oblige("safe:no-raise:%s:%s@%d" % (short, exc, line), z3.Not(as_bool(self.spec_eval_in(clause, env))), line, clause)
                 continue
@@ -852,6 +856,9 @@ class Interp(ExprMixin, StmtMixin):
                         clause="%s must not escape %s" % (exc.cls, c.target))
             return
         name, clause = allowed
+        if clause is None:
+            # recorded so that a function all of whose paths raise allowed exceptions still has (trivial) obligations
+            self.oblige("raises:allowed:%s@%d" % (name, r.line), z3.BoolVal(True), r.line, clause="%s is permitted by the contract" % name)
         if clause is not None:
             g = as_bool(self.spec_eval(clause, dict(self.entry_env)))
             self.oblige("raises:%s@%d" % (name, r.line), g, r.line, clause=clause)
